@@ -14,6 +14,9 @@ package checks
 //                 of a pipe are deterministic (a non-blocking write takes exactly the free pages).
 //   write/tcp     AsyncWrite / AsyncWriteAll of {1, 100000} bytes on a conn with minimal SO_SNDBUF; the kernel
 //                 chooses the split (recorded), totals and content are judged.
+//   chain         33/34/70 reads or writes, each issued from the previous one's completion callback with a buffer of
+//                 its own (1..5 bytes, distinct content), over Dial conn / accepted conn / FIFO / adapter: the
+//                 chain crosses the dispatch limit, where an operation is parked without having been tried.
 //   adapter/read, adapter/write   AsyncAdapter whose io.ReadWriter is scripted: every call returns what the
 //                 explorer picks (all, 1 byte, error, 1 byte + error); the socketpair only supplies readiness.
 // Oracle: position-dependent byte generator; bytes in caller buffers / at the raw peer are exactly the
@@ -514,15 +517,138 @@ func c02Adapter(x *engine.X, write bool, maxN int) {
 	x.Outcome(fmt.Sprintf("adapter/read/failed=%v", rw.failed))
 }
 
+// c02Chain: a message pump. Every completion callback issues the next operation with a buffer of its own, so
+// the chain nests until the dispatch limit defers an element to the poller, then continues from there. Writes:
+// M distinct messages of 1..5 bytes; the raw peer must receive their concatenation, each callback reports its
+// own message's length, once. Reads: the peer has sent everything up front; every read gets a fresh buffer
+// and must deliver the next bytes of the stream into it.
+func c02Chain(x *engine.X) {
+	d := newIODriver(x, false)
+	write := x.Pick(2, "read chain / write chain") == 1
+	kinds := []string{"tcp", "acc", "fifo-r", "adp"}
+	if write {
+		kinds = []string{"tcp", "acc", "fifo-w", "adp"}
+	}
+	kind := kinds[x.Pick(len(kinds), "object kind")]
+	o := d.newObj(kind, "X")
+	M := []int{34, 33, 70}[x.Pick(3, "chain length")]
+	all := x.Pick(2, "plain / All") == 1
+	if kind == "fifo-w" {
+		// a pipe reports itself writable only while it has a free slot, although a small write would still be
+		// merged into the last, partly filled one: with the driver's one-slot pipe the element parked at the
+		// dispatch limit would wait for a reader. Sixteen slots keep "can complete at once" true for the whole chain.
+		syscall.Syscall(syscall.SYS_FCNTL, uintptr(o.rawfd), 1031 /* F_SETPIPE_SZ */, 1<<16)
+	}
+	x.Note("chain write=%v kind=%s M=%d all=%v", write, kind, M, all)
+	x.Nontrivial()
+	lens := make([]int, M)
+	offs := make([]int, M+1)
+	for i := range lens {
+		lens[i] = 1 + (i*7)%5
+		offs[i+1] = offs[i] + lens[i]
+	}
+	total := offs[M]
+	calls := make([]int, M)
+	done := 0
+	if !write {
+		if _, err := syscall.Write(o.peer, genBytes(0, total)); err != nil {
+			x.Inconclusive("peer write: " + err.Error())
+		}
+		if kind != "fifo-r" && !kern.AwaitInq(o.rawfd, total, settleGuard) {
+			x.Inconclusive("stream did not arrive")
+		}
+	}
+	pos := 0
+	var issue func(i int)
+	issue = func(i int) {
+		var buf []byte
+		if write {
+			buf = genBytes(offs[i], lens[i])
+		} else {
+			buf = make([]byte, lens[i])
+		}
+		cb := func(err error, n int) {
+			calls[i]++
+			if calls[i] > 1 {
+				x.Fail("stream.chain/callback-twice", "element %d of the chain: callback ran %d times", i, calls[i])
+			}
+			if write {
+				if err != nil || n != lens[i] {
+					x.Fail("stream.chain/write-result", "write %d of the chain (%d bytes, kind %s) completed with (%v,%d)", i, lens[i], kind, err, n)
+				}
+			} else {
+				if err != nil || n < 1 || n > lens[i] || (all && n != lens[i]) {
+					x.Fail("stream.chain/read-result", "read %d of the chain (%d-byte buffer, all=%v, kind %s) completed with (%v,%d) although the whole stream is queued", i, lens[i], all, kind, err, n)
+				}
+				for k := 0; k < n && k < len(buf); k++ {
+					if buf[k] != genByte(pos+k) {
+						x.Fail("stream.read/wrong-bytes", "read %d of the chain: stream byte %d delivered as %#x into the buffer handed to this read, the peer wrote %#x", i, pos+k, buf[k], genByte(pos+k))
+					}
+				}
+				pos += n
+			}
+			done++
+			if i+1 < M {
+				issue(i + 1)
+			}
+		}
+		switch {
+		case write && all:
+			o.fdo.AsyncWriteAll(buf, cb)
+		case write:
+			o.fdo.AsyncWrite(buf, cb)
+		case all:
+			o.fdo.AsyncReadAll(buf, cb)
+		default:
+			o.fdo.AsyncRead(buf, cb)
+		}
+	}
+	issue(0)
+	for i := 0; i < M+8 && done < M; i++ {
+		d.ioc.PollOne()
+	}
+	if done != M {
+		x.Fail("stream.chain/incomplete", "%d of %d chained operations completed after %d polls (kind %s, write=%v)", done, M, M+8, kind, write)
+	}
+	if d.ioc.Dispatched != 0 {
+		x.Fail("stream.chain/dispatched-not-zero", "IO.Dispatched=%d after the chain", d.ioc.Dispatched)
+	}
+	if write {
+		var got []byte
+		b := make([]byte, 4096)
+		for {
+			if kind != "fifo-w" && kern.Inq(o.peer) == 0 {
+				break
+			}
+			m, err := syscall.Read(o.peer, b)
+			if err != nil || m <= 0 {
+				break
+			}
+			got = append(got, b[:m]...)
+		}
+		want := genBytes(0, total)
+		if string(got) != string(want) {
+			at := 0
+			for at < len(got) && at < len(want) && got[at] == want[at] {
+				at++
+			}
+			x.Fail("stream.write/wrong-bytes", "a chain of %d writes (%d bytes) on %s: the peer received %d bytes, first difference at offset %d", M, total, kind, len(got), at)
+		}
+	}
+	x.Outcome(fmt.Sprintf("chain/%v/%s/%d", write, kind, M))
+}
+
 func c02Body(tier string) func(x *engine.X) {
 	maxN, maxA := 5, 4
 	if tier == "thorough" {
 		maxN, maxA = 8, 6
 	}
-	scen := []string{"read/tcp", "read/acc", "read/fifo-r", "read/adp", "write/fifo", "write/tcp", "adapter/read", "adapter/write"}
+	scen := []string{"read/tcp", "read/acc", "read/fifo-r", "read/adp", "write/fifo", "write/tcp", "adapter/read", "adapter/write", "chain"}
 	return func(x *engine.X) {
 		s := scen[x.Pick(len(scen), "scenario")]
 		switch s {
+		case "chain":
+			c02Chain(x)
 		case "write/fifo":
 			c02WriteFifo(x)
 		case "write/tcp":
@@ -555,7 +681,7 @@ func C02(tier string) *engine.Report {
 	}
 	tot.Add(d.Run(), rep)
 	tot.Fill(rep, "reads: every composition of an N-byte stream (N<=5 quick, <=8 thorough) x buffer sizes {1,2,3,5,8} x AsyncRead/AsyncReadAll over Dial conn, accepted conn, FIFO file and AsyncAdapter, with poll placement, late/forced-deferred start and a concurrent write as deviations; "+
-		"writes: FIFO of 1-2 pages x 7 sizes x reader drain patterns, TCP with minimal send buffer (kernel-chosen splits recorded); AsyncAdapter with a scripted io.ReadWriter returning every (n, err) answer; all combinations of up to N deviations; non-trivial = more than one chunk or any write/adapter scenario", d.MaxDeviations)
+		"writes: FIFO of 1-2 pages x 7 sizes x reader drain patterns, TCP with minimal send buffer (kernel-chosen splits recorded); AsyncAdapter with a scripted io.ReadWriter returning every (n, err) answer; chains of 33/34/70 reads or writes of distinct 1-5 byte buffers, each issued from the previous completion (crossing the dispatch limit), over conn/accepted conn/FIFO/adapter x plain/All; all combinations of up to N deviations; non-trivial = more than one chunk or any write/adapter scenario", d.MaxDeviations)
 	rep.Assumptions = append(rep.Assumptions, "TCP write split sizes are chosen by the kernel and only observed; the enumerated partial-write patterns are the FIFO and scripted-adapter transports, which share the code path")
 	return rep
 }
